@@ -289,4 +289,307 @@ Proof.
   unfold rank_transpose. rewrite map_rev. subst mc. reflexivity.
 Qed.
 
+(* ==== self contracted completely (num_axes = order of self), other longer ==== *)
+
+(* last-first: self = tpart, other = upart ++ d :: post *)
+Theorem tensordot_lf_full_value (tpart upart : list core) (d : core) post x y xq yq i j fin :
+  let Mat := snd (sliceM LastFirst tpart upart) in
+  let mr := rl (headc tpart) in
+  tpart <> [] -> length upart = length tpart -> rows upart = rows tpart -> cols upart = cols tpart ->
+  linked tpart 1%nat -> linked (upart ++ d :: post) fin -> rl_of upart 1%nat = 1%nat ->
+  chain (mat_core mr Mat d :: post) (x :: xq) (y :: yq) i j =
+  dsum (rows tpart) (cols tpart) (fun zx zy =>
+     chain tpart zx zy i 0%nat * chain (upart ++ d :: post) (zx ++ x :: xq) (zy ++ y :: yq) 0%nat j).
+Proof.
+  intros Mat mr Hne Hl Hrw Hcl Lt HLu Hu0.
+  assert (Hune : upart <> []) by (intros ->; destruct tpart; [congruence|discriminate]).
+  apply linked_app in HLu. destruct HLu as (Lup & Ld). cbn [rl_of] in Lup.
+  destruct (lastc_rr tpart 1%nat Hne Lt) as (Hlast_t & _).
+  destruct (lastc_rr upart (rl d) Hune Lup) as (Hlast_u & Prl).
+  set (C := cmat d x y). set (Pst := chain post xq yq).
+  transitivity (mmul (rr d) (fun a e => sum (rl d) (fun q => Mat a q * C q e)) Pst i j).
+  { cbn [chain rr mat_core]. reflexivity. }
+  transitivity (dsum (rows tpart) (cols tpart) (fun zx zy =>
+     chain tpart zx zy i 0%nat * mmul (rl d) (chain upart zx zy) (mmul (rr d) C Pst) 0%nat j)).
+  2:{ apply dsum_ext_len; [unfold rows, cols; rewrite !map_length; reflexivity|].
+      intros zx zy Hzx Hzy. unfold rows in Hzx, Hzy. rewrite map_length in Hzx, Hzy. f_equal.
+      rewrite (chain_app_mm upart (d :: post) zx zy (x :: xq) (y :: yq) (rl d)); try assumption; try reflexivity; try lia. }
+  transitivity (sum (rr d) (fun e => sum (rl d) (fun q =>
+       dsum (rows tpart) (cols tpart) (fun zx zy => (C q e * Pst e j) * (chain tpart zx zy i 0%nat * chain upart zx zy 0%nat q))))).
+  { unfold mmul. apply sum_ext; intros e _. rewrite <- sum_scal_r. apply sum_ext; intros q Hq.
+    rewrite dsum_scal_l. unfold Mat, sliceM. cbn [snd].
+    rewrite contractM_spec by (try assumption; lia). unfold Prod. ring. }
+  erewrite sum_ext; cycle 1.
+  { intros e _. rewrite dsum_sum. reflexivity. }
+  rewrite dsum_sum. apply dsum_ext; intros zx zy.
+  unfold mmul.
+  transitivity (chain tpart zx zy i 0%nat * sum (rr d) (fun e => sum (rl d) (fun q => chain upart zx zy 0%nat q * (C q e * Pst e j)))).
+  - rewrite <- sum_scal_l. apply sum_ext; intros e _. rewrite <- sum_scal_l. apply sum_ext; intros q _. ring.
+  - f_equal. rewrite sum_swap. apply sum_ext; intros q _. rewrite <- sum_scal_l. reflexivity.
+Qed.
+
+(* first-first, before the rank transposition: self = tpart (completely contracted, right rank open), other = upart ++ d :: post *)
+Theorem tensordot_ff_full_pre (tpart upart : list core) (d : core) post x y xq yq i j fin fint :
+  let Mat := snd (sliceM FirstFirst tpart upart) in
+  let mr := rr (lastc tpart) in
+  tpart <> [] -> length upart = length tpart -> rows upart = rows tpart -> cols upart = cols tpart ->
+  linked tpart fint -> rl_of tpart 1%nat = 1%nat -> linked (upart ++ d :: post) fin -> rl_of upart 1%nat = 1%nat -> (i < fint)%nat ->
+  chain (mat_core mr Mat d :: post) (x :: xq) (y :: yq) i j =
+  dsum (rows tpart) (cols tpart) (fun zx zy =>
+     chain tpart zx zy 0%nat i * chain (upart ++ d :: post) (zx ++ x :: xq) (zy ++ y :: yq) 0%nat j).
+Proof.
+  intros Mat mr Hne Hl Hrw Hcl Lt Ht0 HLu Hu0 Hi.
+  assert (Hune : upart <> []) by (intros ->; destruct tpart; [congruence|discriminate]).
+  apply linked_app in HLu. destruct HLu as (Lup & Ld). cbn [rl_of] in Lup.
+  destruct (lastc_rr tpart fint Hne Lt) as (Hlast_t & _).
+  destruct (lastc_rr upart (rl d) Hune Lup) as (Hlast_u & Prl).
+  set (C := cmat d x y). set (Pst := chain post xq yq).
+  transitivity (mmul (rr d) (fun a e => sum (rl d) (fun q => Mat a q * C q e)) Pst i j).
+  { cbn [chain rr mat_core]. reflexivity. }
+  transitivity (dsum (rows tpart) (cols tpart) (fun zx zy =>
+     chain tpart zx zy 0%nat i * mmul (rl d) (chain upart zx zy) (mmul (rr d) C Pst) 0%nat j)).
+  2:{ apply dsum_ext_len; [unfold rows, cols; rewrite !map_length; reflexivity|].
+      intros zx zy Hzx Hzy. unfold rows in Hzx, Hzy. rewrite map_length in Hzx, Hzy. f_equal.
+      rewrite (chain_app_mm upart (d :: post) zx zy (x :: xq) (y :: yq) (rl d)); try assumption; try reflexivity; try lia. }
+  transitivity (sum (rr d) (fun e => sum (rl d) (fun q =>
+       dsum (rows tpart) (cols tpart) (fun zx zy => (C q e * Pst e j) * (chain tpart zx zy 0%nat i * chain upart zx zy 0%nat q))))).
+  { unfold mmul. apply sum_ext; intros e _. rewrite <- sum_scal_r. apply sum_ext; intros q Hq.
+    rewrite dsum_scal_l. unfold Mat, sliceM. cbn [snd].
+    rewrite contractM_spec by (try assumption; try lia; rewrite Hlast_t; exact Hi). unfold Prod. ring. }
+  erewrite sum_ext; cycle 1.
+  { intros e _. rewrite dsum_sum. reflexivity. }
+  rewrite dsum_sum. apply dsum_ext; intros zx zy.
+  unfold mmul.
+  transitivity (chain tpart zx zy 0%nat i * sum (rr d) (fun e => sum (rl d) (fun q => chain upart zx zy 0%nat q * (C q e * Pst e j)))).
+  - rewrite <- sum_scal_l. apply sum_ext; intros e _. rewrite <- sum_scal_l. apply sum_ext; intros q _. ring.
+  - f_equal. rewrite sum_swap. apply sum_ext; intros q _. rewrite <- sum_scal_l. reflexivity.
+Qed.
+
+Lemma tensordot_lf_full_unfold (tpart upart : list core) (d : core) post :
+  length upart = length tpart ->
+  tensordot LastFirst (length tpart) tpart (upart ++ d :: post) =
+  mat_core (rl (headc tpart)) (snd (sliceM LastFirst tpart upart)) d :: post.
+Proof.
+  intros Hl. unfold tensordot.
+  rewrite !app_length. cbn [length].
+  rewrite Nat.sub_diag. rewrite skipn_O.
+  assert (E2 : firstn (length tpart) (upart ++ d :: post) = upart).
+  { rewrite <- Hl. rewrite firstn_app, firstn_all, Nat.sub_diag. cbn [firstn]. apply app_nil_r. }
+  rewrite E2.
+  destruct (sliceM LastFirst tpart upart) as ((mr & mc) & Mat) eqn:Es.
+  assert (Emr : mr = rl (headc tpart)) by (unfold sliceM in Es; inversion Es; reflexivity).
+  rewrite Nat.eqb_refl.
+  replace (length tpart =? length upart + S (length post))%nat with false by (symmetry; apply Nat.eqb_neq; lia).
+  cbn [andb snd].
+  rewrite <- Hl. rewrite app_nth2 by lia. rewrite Nat.sub_diag. cbn [nth].
+  replace (S (length upart)) with (length (upart ++ [d])) by (rewrite app_length; simpl; lia).
+  replace (upart ++ d :: post) with ((upart ++ [d]) ++ post) by (rewrite <- app_assoc; reflexivity).
+  rewrite skipn_app, skipn_all, Nat.sub_diag. cbn [skipn app].
+  subst mr. reflexivity.
+Qed.
+
+(* first-last: self = tpart (completely contracted), other = upre ++ d :: upart; the open right rank of self survives *)
+Theorem tensordot_fl_full_value (tpart : list core) upre (d : core) upart xq yq x y j b fint :
+  let Mat := snd (sliceM FirstLast tpart upart) in
+  let mr := rr (lastc tpart) in
+  tpart <> [] -> length upart = length tpart -> rows upart = rows tpart -> cols upart = cols tpart ->
+  linked tpart fint -> rl_of tpart 1%nat = 1%nat -> linked (upre ++ d :: upart) 1%nat ->
+  length xq = length upre -> length yq = length upre ->
+  (upre = [] -> (j < rl d)%nat) -> (b < fint)%nat ->
+  chain (upre ++ [core_matT d mr Mat]) (xq ++ [x]) (yq ++ [y]) j b =
+  dsum (rows tpart) (cols tpart) (fun zx zy =>
+     chain (upre ++ d :: upart) (xq ++ x :: zx) (yq ++ y :: zy) j 0%nat * chain tpart zx zy 0%nat b).
+Proof.
+  intros Mat mr Hne Hl Hrw Hcl Lt Ht0 HLu Hxq Hyq Hj Hb.
+  assert (Hune : upart <> []) by (intros ->; destruct tpart; [congruence|discriminate]).
+  apply linked_app in HLu. destruct HLu as (Lupre & Ld). cbn [rl_of] in Lupre.
+  destruct Ld as (Pd & Ed & Lup).
+  destruct (lastc_rr tpart fint Hne Lt) as (Hlast_t & Pf). fold mr in Hlast_t.
+  destruct (lastc_rr upart 1%nat Hune Lup) as (Hlast_u & _).
+  set (U' := chain upre xq yq). set (C := cmat d x y).
+  transitivity (mmul (rl d) U' (fun a bb => sum (rr d) (fun q => C a q * Mat bb q)) j b).
+  { rewrite (chain_app_mm upre [core_matT d mr Mat] xq yq [x] [y] (rl d)); try assumption; try reflexivity.
+    apply mmul_ext; intros a Ha; [reflexivity|]. cbn [chain rr core_matT].
+    rewrite (mmul_delta_r mr (cmat (core_matT d mr Mat) x y)) by (rewrite Hlast_t; exact Hb). reflexivity. }
+  transitivity (dsum (rows tpart) (cols tpart) (fun zx zy =>
+     mmul (rl d) U' (mmul (rr d) C (chain upart zx zy)) j 0%nat * chain tpart zx zy 0%nat b)).
+  2:{ apply dsum_ext_len; [unfold rows, cols; rewrite !map_length; reflexivity|].
+      intros zx zy Hzx Hzy. f_equal.
+      rewrite (chain_app_mm upre (d :: upart) xq yq (x :: zx) (y :: zy) (rl d)); try assumption; reflexivity. }
+  transitivity (sum (rl d) (fun a => sum (rr d) (fun q =>
+       dsum (rows tpart) (cols tpart) (fun zx zy => (U' j a * C a q) * (chain tpart zx zy 0%nat b * chain upart zx zy q 0%nat))))).
+  { unfold mmul. apply sum_ext; intros a _. rewrite <- sum_scal_l. apply sum_ext; intros q Hq.
+    rewrite dsum_scal_l. unfold Mat, sliceM. cbn [snd].
+    rewrite contractM_spec by (try assumption; try lia; rewrite Hlast_t; exact Hb). unfold Prod. ring. }
+  erewrite sum_ext; cycle 1.
+  { intros a _. rewrite dsum_sum. reflexivity. }
+  rewrite dsum_sum. apply dsum_ext; intros zx zy.
+  unfold mmul. rewrite <- sum_scal_r. apply sum_ext; intros a _.
+  transitivity (U' j a * sum (rr d) (fun q => C a q * chain upart zx zy q 0%nat) * chain tpart zx zy 0%nat b); [|ring].
+  rewrite <- sum_scal_l, <- sum_scal_r. apply sum_ext; intros q _. ring.
+Qed.
+
+(* last-last, before the rank transposition: self = tpart (completely contracted, left rank i open), other = upre ++ d :: upart *)
+Theorem tensordot_ll_full_pre (tpart : list core) upre (d : core) upart xq yq x y j b fint :
+  let Mat := snd (sliceM LastLast tpart upart) in
+  let mr := rl (headc tpart) in
+  tpart <> [] -> length upart = length tpart -> rows upart = rows tpart -> cols upart = cols tpart ->
+  linked tpart 1%nat -> fint = rl (headc tpart) -> linked (upre ++ d :: upart) 1%nat ->
+  length xq = length upre -> length yq = length upre ->
+  (upre = [] -> (j < rl d)%nat) -> (b < fint)%nat ->
+  chain (upre ++ [core_matT d mr Mat]) (xq ++ [x]) (yq ++ [y]) j b =
+  dsum (rows tpart) (cols tpart) (fun zx zy =>
+     chain (upre ++ d :: upart) (xq ++ x :: zx) (yq ++ y :: zy) j 0%nat * chain tpart zx zy b 0%nat).
+Proof.
+  intros Mat mr Hne Hl Hrw Hcl Lt Ht0 HLu Hxq Hyq Hj Hb.
+  assert (Hune : upart <> []) by (intros ->; destruct tpart; [congruence|discriminate]).
+  apply linked_app in HLu. destruct HLu as (Lupre & Ld). cbn [rl_of] in Lupre.
+  destruct Ld as (Pd & Ed & Lup).
+  destruct (lastc_rr tpart 1%nat Hne Lt) as (Hlast_t & _). assert (Hmr : mr = fint) by (unfold mr; symmetry; exact Ht0).
+  destruct (lastc_rr upart 1%nat Hune Lup) as (Hlast_u & _).
+  set (U' := chain upre xq yq). set (C := cmat d x y).
+  transitivity (mmul (rl d) U' (fun a bb => sum (rr d) (fun q => C a q * Mat bb q)) j b).
+  { rewrite (chain_app_mm upre [core_matT d mr Mat] xq yq [x] [y] (rl d)); try assumption; try reflexivity.
+    apply mmul_ext; intros a Ha; [reflexivity|]. cbn [chain rr core_matT].
+    rewrite (mmul_delta_r mr (cmat (core_matT d mr Mat) x y)) by (rewrite Hmr; exact Hb). reflexivity. }
+  transitivity (dsum (rows tpart) (cols tpart) (fun zx zy =>
+     mmul (rl d) U' (mmul (rr d) C (chain upart zx zy)) j 0%nat * chain tpart zx zy b 0%nat)).
+  2:{ apply dsum_ext_len; [unfold rows, cols; rewrite !map_length; reflexivity|].
+      intros zx zy Hzx Hzy. f_equal.
+      rewrite (chain_app_mm upre (d :: upart) xq yq (x :: zx) (y :: zy) (rl d)); try assumption; reflexivity. }
+  transitivity (sum (rl d) (fun a => sum (rr d) (fun q =>
+       dsum (rows tpart) (cols tpart) (fun zx zy => (U' j a * C a q) * (chain tpart zx zy b 0%nat * chain upart zx zy q 0%nat))))).
+  { unfold mmul. apply sum_ext; intros a _. rewrite <- sum_scal_l. apply sum_ext; intros q Hq.
+    rewrite dsum_scal_l. unfold Mat, sliceM. cbn [snd].
+    rewrite contractM_spec by (try assumption; lia). unfold Prod. ring. }
+  erewrite sum_ext; cycle 1.
+  { intros a _. rewrite dsum_sum. reflexivity. }
+  rewrite dsum_sum. apply dsum_ext; intros zx zy.
+  unfold mmul. rewrite <- sum_scal_r. apply sum_ext; intros a _.
+  transitivity (U' j a * sum (rr d) (fun q => C a q * chain upart zx zy q 0%nat) * chain tpart zx zy b 0%nat); [|ring].
+  rewrite <- sum_scal_l, <- sum_scal_r. apply sum_ext; intros q _. ring.
+Qed.
+
+Lemma tensordot_fl_full_unfold (tpart : list core) upre (d : core) upart :
+  length upart = length tpart ->
+  tensordot FirstLast (length tpart) tpart (upre ++ d :: upart) =
+  upre ++ [core_matT d (rr (lastc tpart)) (snd (sliceM FirstLast tpart upart))].
+Proof.
+  intros Hl. unfold tensordot.
+  rewrite !app_length. cbn [length].
+  replace (length upre + S (length upart) - length tpart)%nat with (S (length upre)) by lia.
+  assert (E1 : firstn (length tpart) tpart = tpart) by apply firstn_all.
+  assert (E2 : skipn (S (length upre)) (upre ++ d :: upart) = upart).
+  { replace (S (length upre)) with (length (upre ++ [d])) by (rewrite app_length; simpl; lia).
+    replace (upre ++ d :: upart) with ((upre ++ [d]) ++ upart) by (rewrite <- app_assoc; reflexivity).
+    rewrite skipn_app, skipn_all, Nat.sub_diag. reflexivity. }
+  rewrite E1, E2.
+  destruct (sliceM FirstLast tpart upart) as ((mr & mc) & Mat) eqn:Es.
+  assert (Emr : mr = rr (lastc tpart)) by (unfold sliceM in Es; inversion Es; reflexivity).
+  rewrite Nat.eqb_refl.
+  replace (length tpart =? length upre + S (length upart))%nat with false by (symmetry; apply Nat.eqb_neq; lia).
+  cbn [andb snd].
+  replace (S (length upre) - 1)%nat with (length upre) by lia.
+  rewrite firstn_app, firstn_all, Nat.sub_diag. cbn [firstn]. rewrite app_nil_r.
+  rewrite app_nth2 by lia. rewrite Nat.sub_diag. cbn [nth].
+  subst mr. reflexivity.
+Qed.
+
+Theorem tensordot_ll_full_value (tpart : list core) upre (d : core) upart xq yq x y i j :
+  let Mat := snd (sliceM LastLast tpart upart) in
+  let mr := rl (headc tpart) in
+  tpart <> [] -> length upart = length tpart -> rows upart = rows tpart -> cols upart = cols tpart ->
+  linked tpart 1%nat -> linked (upre ++ d :: upart) 1%nat ->
+  length xq = length upre -> length yq = length upre ->
+  (j < rl_of (upre ++ [d]) 1%nat)%nat -> (i < mr)%nat ->
+  chain (rank_transpose (upre ++ [core_matT d mr Mat])) (rev (xq ++ [x])) (rev (yq ++ [y])) i j =
+  dsum (rows tpart) (cols tpart) (fun zx zy =>
+     chain tpart zx zy i 0%nat * chain (upre ++ d :: upart) (xq ++ x :: zx) (yq ++ y :: zy) j 0%nat).
+Proof.
+  intros Mat mr Hne Hl Hrw Hcl Lt HLu Hxq Hyq Hj Hi. subst Mat mr.
+  assert (HLu' := HLu). apply linked_app in HLu'. destruct HLu' as (Lupre & Ld). cbn [rl_of] in Lupre.
+  rewrite (chain_rank_transpose (upre ++ [core_matT d (rl (headc tpart)) (snd (sliceM LastLast tpart upart))]) (xq ++ [x]) (yq ++ [y]) j i (rl (headc tpart))).
+  - rewrite (tensordot_ll_full_pre tpart upre d upart xq yq x y j i (rl (headc tpart)) Hne Hl Hrw Hcl Lt eq_refl HLu Hxq Hyq).
+    + apply dsum_ext; intros zx zy. ring.
+    + intros ->. cbn [app rl_of] in Hj. exact Hj.
+    + exact Hi.
+  - rewrite !app_length. cbn [length]. lia.
+  - rewrite !app_length. cbn [length]. lia.
+  - apply linked_app. cbn [rl_of core_matT rl linked rr]. split; [exact Lupre|]. repeat split; lia.
+  - destruct upre; cbn [app rl_of core_matT rl] in *; exact Hj.
+  - exact Hi.
+Qed.
+
+Lemma tensordot_ll_full_unfold (tpart : list core) upre (d : core) upart :
+  length upart = length tpart ->
+  tensordot LastLast (length tpart) tpart (upre ++ d :: upart) =
+  rank_transpose (upre ++ [core_matT d (rl (headc tpart)) (snd (sliceM LastLast tpart upart))]).
+Proof.
+  intros Hl. unfold tensordot.
+  rewrite !app_length. cbn [length].
+  rewrite Nat.sub_diag. rewrite skipn_O.
+  replace (length upre + S (length upart) - length tpart)%nat with (S (length upre)) by lia.
+  assert (E2 : skipn (S (length upre)) (upre ++ d :: upart) = upart).
+  { replace (S (length upre)) with (length (upre ++ [d])) by (rewrite app_length; simpl; lia).
+    replace (upre ++ d :: upart) with ((upre ++ [d]) ++ upart) by (rewrite <- app_assoc; reflexivity).
+    rewrite skipn_app, skipn_all, Nat.sub_diag. reflexivity. }
+  rewrite E2.
+  destruct (sliceM LastLast tpart upart) as ((mr & mc) & Mat) eqn:Es.
+  assert (Emr : mr = rl (headc tpart)) by (unfold sliceM in Es; inversion Es; reflexivity).
+  rewrite Nat.eqb_refl.
+  replace (length tpart =? length upre + S (length upart))%nat with false by (symmetry; apply Nat.eqb_neq; lia).
+  cbn [andb snd].
+  replace (S (length upre) - 1)%nat with (length upre) by lia.
+  rewrite firstn_app, firstn_all, Nat.sub_diag. cbn [firstn]. rewrite app_nil_r.
+  rewrite app_nth2 by lia. rewrite Nat.sub_diag. cbn [nth].
+  unfold rank_transpose. rewrite map_app, rev_app_distr. cbn [map rev app]. rewrite map_rev. subst mr. reflexivity.
+Qed.
+
+Theorem tensordot_ff_full_value (tpart upart : list core) (d : core) upost x y xq yq b j finu fint :
+  let Mat := snd (sliceM FirstFirst tpart upart) in
+  let mr := rr (lastc tpart) in
+  tpart <> [] -> length upart = length tpart -> rows upart = rows tpart -> cols upart = cols tpart ->
+  linked tpart fint -> rl_of tpart 1%nat = 1%nat -> linked (upart ++ d :: upost) finu -> rl_of upart 1%nat = 1%nat ->
+  length xq = length upost -> length yq = length upost -> (b < fint)%nat -> (j < finu)%nat ->
+  chain (rank_transpose (mat_core mr Mat d :: upost)) (rev (x :: xq)) (rev (y :: yq)) j b =
+  dsum (rows tpart) (cols tpart) (fun zx zy =>
+     chain tpart zx zy 0%nat b * chain (upart ++ d :: upost) (zx ++ x :: xq) (zy ++ y :: yq) 0%nat j).
+Proof.
+  intros Mat mr Hne Hl Hrw Hcl Lt Ht0 HLu Hu0 Hxq Hyq Hb Hj. subst Mat mr.
+  assert (HLu' := HLu). apply linked_app in HLu'. destruct HLu' as (Lup & Ld). cbn [rl_of] in Lup.
+  destruct Ld as (Pd & Ed & Lpost).
+  destruct (lastc_rr tpart fint Hne Lt) as (Hlast_t & Pf).
+  rewrite (chain_rank_transpose (mat_core (rr (lastc tpart)) (snd (sliceM FirstFirst tpart upart)) d :: upost) (x :: xq) (y :: yq) b j finu).
+  - exact (tensordot_ff_full_pre tpart upart d upost x y xq yq b j finu fint Hne Hl Hrw Hcl Lt Ht0 HLu Hu0 Hb).
+  - cbn [length]. lia.
+  - cbn [length]. lia.
+  - cbn [linked rr mat_core]. repeat split; assumption.
+  - cbn [rl_of rl mat_core]. rewrite Hlast_t. exact Hb.
+  - exact Hj.
+Qed.
+
+Lemma tensordot_ff_full_unfold (tpart upart : list core) (d : core) upost :
+  length upart = length tpart ->
+  tensordot FirstFirst (length tpart) tpart (upart ++ d :: upost) =
+  rank_transpose (mat_core (rr (lastc tpart)) (snd (sliceM FirstFirst tpart upart)) d :: upost).
+Proof.
+  intros Hl. unfold tensordot.
+  rewrite !app_length. cbn [length].
+  assert (E1 : firstn (length tpart) tpart = tpart) by apply firstn_all.
+  assert (E2 : firstn (length tpart) (upart ++ d :: upost) = upart).
+  { rewrite <- Hl. rewrite firstn_app, firstn_all, Nat.sub_diag. cbn [firstn]. apply app_nil_r. }
+  rewrite E1, E2.
+  destruct (sliceM FirstFirst tpart upart) as ((mr & mc) & Mat) eqn:Es.
+  assert (Emr : mr = rr (lastc tpart)) by (unfold sliceM in Es; inversion Es; reflexivity).
+  rewrite Nat.eqb_refl.
+  replace (length tpart =? length upart + S (length upost))%nat with false by (symmetry; apply Nat.eqb_neq; lia).
+  cbn [andb snd].
+  assert (E3 : skipn (S (length tpart)) (upart ++ d :: upost) = upost).
+  { rewrite <- Hl. replace (S (length upart)) with (length (upart ++ [d])) by (rewrite app_length; simpl; lia).
+    replace (upart ++ d :: upost) with ((upart ++ [d]) ++ upost) by (rewrite <- app_assoc; reflexivity).
+    rewrite skipn_app, skipn_all, Nat.sub_diag. reflexivity. }
+  rewrite E3. rewrite <- Hl at 1. rewrite app_nth2 by lia. rewrite Nat.sub_diag. cbn [nth].
+  unfold rank_transpose. cbn [map rev]. rewrite map_app, map_rev. cbn [map]. subst mr. reflexivity.
+Qed.
+
 End TensordotModes.
